@@ -25,6 +25,13 @@ pub struct DfCfg {
     pub n_data: u8,
     /// the (semi-structured) map layout instead of arbitrary items
     pub map: bool,
+    /// also read the file through the real file plumbing (datafile/src/file.rs) from a temp file;
+    /// the item section is then made large (header + tables + items beyond one I/O buffer)
+    #[serde(default)]
+    pub via_file: bool,
+    /// junk bytes in front of the datafile inside that temp file (Reader::new on a positioned File)
+    #[serde(default)]
+    pub file_prefix: u16,
 }
 
 #[derive(Clone, Debug, Serialize, Deserialize, PartialEq)]
@@ -120,7 +127,8 @@ fn model(cfg: &DfCfg) -> Model {
     let mut items = Vec::new();
     if !type_ids.is_empty() {
         let mut per_type = vec![0usize; type_ids.len()];
-        for _ in 0..cfg.n_items {
+        let n_items = if cfg.via_file { cfg.n_items as usize * 24 } else { cfg.n_items as usize };
+        for _ in 0..n_items {
             per_type[r.usize_below(type_ids.len())] += 1;
         }
         for (k, &t) in type_ids.iter().enumerate() {
@@ -468,6 +476,40 @@ impl DfEngine {
         (types, items, data)
     }
 
+    /// Reads the same bytes through datafile::Reader (file.rs) from a real temp file, optionally behind a junk prefix.
+    fn file_traverse(cfg: &DfCfg, bytes: &[u8]) -> Result<Result<(Vec<u16>, Vec<MItem>, Vec<Result<Vec<u8>, String>>), String>, PanicInfo> {
+        use std::io::{Seek, SeekFrom, Write};
+        let path = std::env::temp_dir().join(format!("tw2sim-df-{}-{:016x}-{:?}.dat", std::process::id(), cfg.seed, std::thread::current().id()).replace(['(', ')'], ""));
+        let prefix = cfg.file_prefix as usize;
+        {
+            let mut f = match std::fs::File::create(&path) {
+                Ok(f) => f,
+                Err(e) => return Ok(Err(format!("harness: cannot create temp file: {}", e))),
+            };
+            let junk: Vec<u8> = (0..prefix).map(|i| (i * 7 + 3) as u8).collect();
+            let _ = f.write_all(&junk);
+            let _ = f.write_all(bytes);
+        }
+        let r = guard(|| {
+            let mut reader = if prefix == 0 && cfg.seed & 1 == 0 {
+                libtw2_datafile::Reader::open(&path).map_err(|e| format!("{:?}", e))?
+            } else {
+                let mut f = std::fs::File::open(&path).map_err(|e| format!("harness: {}", e))?;
+                f.seek(SeekFrom::Start(prefix as u64)).map_err(|e| format!("harness: {}", e))?;
+                libtw2_datafile::Reader::new(f).map_err(|e| format!("{:?}", e))?
+            };
+            let types: Vec<u16> = reader.item_types().collect();
+            let items: Vec<MItem> = reader.items().map(|i| MItem { type_id: i.type_id, id: i.id, data: i.data.to_vec() }).collect();
+            for &t in &types {
+                let _ = reader.item_type_items(t).count();
+            }
+            let data: Vec<Result<Vec<u8>, String>> = reader.data_iter().map(|d| d.map_err(|e| format!("{:?}", e))).collect();
+            Ok((types, items, data))
+        });
+        let _ = std::fs::remove_file(&path);
+        r
+    }
+
     fn map_traverse(cfg: &DfCfg, bytes: &[u8]) -> Result<u32, PanicInfo> {
         // the map layer reads through datafile::Reader over a real file
         let dir = std::env::temp_dir();
@@ -579,6 +621,8 @@ impl Engine for DfEngine {
             n_items: c.range(0, 12) as u8,
             n_data: *c.pick(&[0u8, 1, 2, 3, 6]),
             map: c.chance(1, 5),
+            via_file: c.chance(1, 10),
+            file_prefix: if c.chance(1, 3) { *c.pick(&[1u16, 4, 100, 8191, 8192, 9000]) } else { 0 },
         };
         let mut ops = Vec::new();
         let n_faults = match c.below(6) {
@@ -765,6 +809,48 @@ impl Engine for DfEngine {
             (Err(_), true) => ctx.count("probe_damaged_file_rejected"),
         }
         ctx.state(((cfg.version as u64) << 8) | ((damaged as u64) << 4) | (res.is_ok() as u64) << 1 | cfg.map as u64);
+        // the same bytes through the real file plumbing
+        if cfg.via_file && !cfg.map && fail_at.is_none() && shrink == 0 && alloc_limit >= (64 << 20) {
+            match DfEngine::file_traverse(cfg, &bytes) {
+                Err(p) => {
+                    let class = if p.is_budget() { "unbounded-loop" } else { "panic" };
+                    return Some(v(class, &[("layer", "datafile-file"), ("message", &p.msg_class()), ("file", &p.file_class())], format!("datafile::Reader over a real file panicked on a {} file: {} at {}:{}", if damaged { "damaged" } else { "well-formed" }, p.msg, p.file, p.line)));
+                }
+                Ok(Err(e)) => {
+                    if e.starts_with("harness:") {
+                        ctx.count("probe_tempfile_unavailable");
+                    } else if !damaged {
+                        return Some(v("well-formed-file-rejected", &[("layer", "datafile-file"), ("prefix", if cfg.file_prefix > 0 { "yes" } else { "no" })], format!("datafile::Reader over a real file (prefix {} bytes, tables+items {} bytes) rejected a well-formed version {} file: {}", cfg.file_prefix, lay.data_start, cfg.version, e)));
+                    }
+                }
+                Ok(Ok((types, items, data))) => {
+                    ctx.count("probe_via_file_read");
+                    if lay.data_start > 8192 {
+                        ctx.count("probe_via_file_tables_over_8k");
+                    }
+                    if cfg.file_prefix > 0 {
+                        ctx.count("probe_via_file_with_prefix");
+                    }
+                    if !damaged {
+                        let mut want_types: Vec<u16> = m.items.iter().map(|i| i.type_id).collect();
+                        want_types.dedup();
+                        if types != want_types || items != m.items {
+                            return Some(v("stored-content-differs", &[("what", "items"), ("layer", "datafile-file")], format!("through the real file: {} items / {} types read, {} / {} stored", items.len(), types.len(), m.items.len(), want_types.len())));
+                        }
+                        for (i, (g, w)) in data.iter().zip(m.data.iter()).enumerate() {
+                            match g {
+                                Ok(d) if d == w => {}
+                                Ok(d) => return Some(v("stored-content-differs", &[("what", "data"), ("layer", "datafile-file"), ("prefix", if cfg.file_prefix > 0 { "yes" } else { "no" })], format!("through the real file (datafile starting at offset {}): read_data({}) returned {} bytes that differ from the {} stored bytes", cfg.file_prefix, i, d.len(), w.len()))),
+                                Err(e) => return Some(v("stored-content-differs", &[("what", "data-error"), ("layer", "datafile-file"), ("prefix", if cfg.file_prefix > 0 { "yes" } else { "no" })], format!("through the real file (datafile starting at offset {}): read_data({}) failed on a well-formed file: {}", cfg.file_prefix, i, e))),
+                            }
+                        }
+                        if data.len() != m.data.len() {
+                            return Some(v("stored-content-differs", &[("what", "data-count"), ("layer", "datafile-file")], format!("{} data blocks read through the file, {} stored", data.len(), m.data.len())));
+                        }
+                    }
+                }
+            }
+        }
         // map layer over a real file with the same (possibly damaged) content
         if cfg.map && fail_at.is_none() && shrink == 0 {
             match DfEngine::map_traverse(cfg, &bytes) {
@@ -823,7 +909,7 @@ impl Engine for DfEngine {
             ],
             real: vec!["datafile::raw::Reader (header, tables, check(), item/data accessors)", "datafile::format", "zlib-minimal + libz", "map::reader::Reader over datafile::Reader over a temp file (file.rs plumbing)"],
             stub: vec!["the disk behind CallbackNew / CallbackReadData (simulated)"],
-            required_probes: vec!["probe_intact_file_read", "probe_damaged_file_accepted", "probe_damaged_file_rejected", "probe_map_traversed", "probe_map_intact_read", "probe_map_game_layers_ok", "probe_map_8plus_accessors_ok"],
+            required_probes: vec!["probe_intact_file_read", "probe_damaged_file_accepted", "probe_damaged_file_rejected", "probe_map_traversed", "probe_map_intact_read", "probe_map_game_layers_ok", "probe_map_8plus_accessors_ok", "probe_via_file_read", "probe_via_file_tables_over_8k", "probe_via_file_with_prefix"],
             fault_kinds: vec!["fault_torn_tail", "fault_bit_rot_field", "fault_bit_rot_coherent", "fault_bit_flip", "fault_callback_error", "fault_file_shrinks_after_open", "fault_alloc_refused"],
         }
     }
